@@ -209,6 +209,8 @@ def check_case(ts, tp, rows, mu, eps, space, std_out, cache, replay, res, stats,
         stats["raised"][type(e).__name__] = stats["raised"].get(type(e).__name__, 0) + 1
         return None
     r["replay"] = replay
+    r["py_brute"] = (Z, marg)
+    r["want_brute"] = (r["G"] ** len(r["nonfixed"]) <= 130) and space == dc.LIN
     return r
 
 
@@ -267,21 +269,23 @@ def multitree_inputs(ctx, n_cases, stats):
                               muts_per_edge=float(rng.choice([0.3, 1, 2])))
         if ts.num_trees < 2 or ts.num_mutations == 0:
             continue
+        tp_n = int(rng.integers(3, 7))
         try:
-            pr = tsdate.build_prior_grid(ts, info["Ne"], timepoints=int(rng.integers(3, 7)))
+            pr = tsdate.build_prior_grid(ts, info["Ne"], timepoints=tp_n)
         except BaseException:  # noqa: BLE001
             continue
         space = str(rng.choice([dc.LIN, dc.LOG]))
         std_out = bool(rng.random() < 0.5)
+        eps = float(rng.choice([1e-8, 1e-6]))
+        cache = bool(rng.random() < 0.5)
         try:
-            r = dc.run_impl(ts, pr, info["mu"], float(rng.choice([1e-8, 1e-6])), space, std_in=True,
-                            cache=bool(rng.random() < 0.5), std_out=std_out)
+            r = dc.run_impl(ts, pr, info["mu"], eps, space, std_in=True, cache=cache, std_out=std_out)
         except BaseException as e:  # noqa: BLE001
             stats["raised"][type(e).__name__] = stats["raised"].get(type(e).__name__, 0) + 1
             continue
         from .. import gen as g2
         r["replay"] = dict(kind="multitree", ts=g2.ts_to_jsonable(ts), Ne=info["Ne"], mu=f2h(info["mu"]), space=space,
-                           std_out=std_out, G=r["G"])
+                           std_out=std_out, G=r["G"], timepoints=tp_n, eps=f2h(eps), cache=cache)
         stats["multitree"] += 1
         out.append(r)
     return out
@@ -328,6 +332,28 @@ def correspondence(recs, res, stats):
             s, t = dc.bit_equal(r, m)
             same += s
             tot += t
+        if carrier == "rat" and m.get("brute") is not None:
+            # the theorems, checked exactly on this input: inside_marginal and posterior_exact at Rat
+            b = m["brute"]
+            stats["exact_theorem_checks"] = stats.get("exact_theorem_checks", 0) + 1
+            if b["Z"] != m["marg"]:
+                res.corr_failures.append(Violation("lean-model-vs-lean-spec:marginal",
+                                                   f"Lean model marginal likelihood {float(m['marg'])!r} != Lean bruteZ {float(b['Z'])!r} (exact rationals)",
+                                                   r["replay"], stage="B"))
+            for u in r["nonfixed"]:
+                P = [x * y for x, y in zip(m["inside"][u], m["outside"][u])]
+                M = b["marg"][u]
+                if any(P[i] * M[j] != P[j] * M[i] for i in range(len(P)) for j in range(len(P))) or (any(M) and not any(P)):
+                    res.corr_failures.append(Violation("lean-model-vs-lean-spec:posterior",
+                                                       f"Lean model inside*outside of node {u} is not proportional to Lean bruteMarginal (exact rationals)",
+                                                       r["replay"], stage="B"))
+                    break
+            # the Lean spec and the Python enumeration state the same thing
+            if "py_brute" in r:
+                Zp, margp = r["py_brute"]
+                if not dc.close(Zp, b["Z"], rtol=1e-9):
+                    res.corr_failures.append(Violation("lean-spec-vs-python-enumeration",
+                                                       f"Lean bruteZ {float(b['Z'])!r} != Python enumeration {Zp!r}", r["replay"], stage="B"))
     stats["float_values_bit_identical"] = [same, tot]
     stats["hypothesis_hit_rates"] = hyp
 
@@ -412,9 +438,12 @@ def replay(ctx, payload):
     else:
         from .. import gen
         ts = gen.ts_from_jsonable(d["ts"])
-        pr = tsdate.build_prior_grid(ts, d["Ne"], timepoints=d["G"] - 1) if False else None
-        print("multi-tree correspondence input; tables are regenerated from the tree sequence")
-        recs = []
+        pr = tsdate.build_prior_grid(ts, d["Ne"], timepoints=d["timepoints"])
+        print(f"multi-tree correspondence input: {ts.num_trees} trees, {ts.num_nodes} nodes, G={len(pr.timepoints)}")
+        r = dc.run_impl(ts, pr, common.h2f(d["mu"]), common.h2f(d["eps"]), d["space"], std_in=True,
+                        cache=d["cache"], std_out=d["std_out"])
+        r["replay"] = d
+        recs = [r]
     if recs:
         correspondence(recs, res, stats)
         for c in res.corr_failures:
